@@ -425,10 +425,15 @@ class ErrorRanges:
         self._lengths = self._compute_lengths()
 
     def _compute_lengths(self) -> List[int]:
-        lengths = [
-            int(errors / self.error_rate) - 1
-            for errors in range(1, int(self.error_rate * self.length) + 1)
-        ]
+        # The number of allowed errors for a match of a given length is
+        # int(error_rate * length). Use exactly that expression to find
+        # the lengths at which one more error becomes allowed.
+        lengths = []
+        errors = 0
+        for length in range(1, self.length + 1):
+            while int(self.error_rate * length) > errors:
+                lengths.append(length - 1)
+                errors += 1
         if not lengths or lengths[-1] < self.length:
             lengths.append(self.length)
         return lengths
